@@ -290,6 +290,8 @@ def call_specop(eng, op, args, kwargs, st):
         t = pytype_name(v)
         if t is None and isinstance(v, Opq):
             raise Unsupported("typeis on untyped opaque")
+        if isinstance(v, Opq) and t:
+            t = t.split(".")[-1]
         if isinstance(v, Ref):
             h = st.heap[v.oid]
             t = "dict" if isinstance(h, HDict) else "list" if isinstance(h, HList) else (h.cls or "object").split(".")[-1]
